@@ -156,6 +156,10 @@ def run(ctx, rep) -> None:
     rep.attempt("_change_guards", _change_guards, ctx, rep, "C07.3")
     rep.attempt("collective_uniformity", collective_uniformity, ctx, rep, "C07.3", {"HSDPDistributor"})
     rep.attempt("buffer_protocol", buffer_protocol, ctx, rep, "C07.3", HSDP)
+    from .common import utility_semantics
+
+    rep.rule("C07.7", "the pure utilities this property is built on compute what they document (concrete interpretation on small cases)")
+    rep.attempt("utility_semantics", utility_semantics, ctx, rep, "C07.7", ("get_dtype_size", "compress_list", "generate_pairwise_indices"))
     rep.rule("C07.6", "communication dtype table, allocation forwarding and mesh-dimension roles of the HSDP distributor")
     rep.attempt("comm_dtype_table", comm_dtype_table, ctx, rep, "C07.6", HSDP)
     rep.attempt("allocation_forwards_request", allocation_forwards_request, ctx, rep, "C07.6", HSDP)
